@@ -1,6 +1,7 @@
 """Harness: runs a function under contract over all paths, collects named obligations, discharges
 them, and keeps the bookkeeping the evidence files need."""
 import ast
+import os
 import time
 import z3
 
@@ -19,6 +20,18 @@ class FunctionUnderContract:
         self.paths = 0
         self.out_of_subset = None
         self.notes = []
+
+
+def _load_baseline():
+    import json
+    try:
+        return json.load(open(os.path.join(os.path.dirname(os.path.dirname(os.path.abspath(__file__))), 'contracts', 'baseline_methods.json')))['classes']
+    except Exception:
+        return {}
+
+
+_BASELINE = _load_baseline()
+_SAFE_STDLIB = {'itertools', 'math', 'operator', 'functools', 'string', 'fractions'}
 
 
 class Harness:
@@ -57,6 +70,16 @@ class Harness:
             try:
                 sub = harness.fn(relpath, name)
             except Exception:
+                # a name the file imports from a side-effect-free standard-library module (itertools, math, operator, ..):
+                # the real object, which works on concrete values and raises on symbolic ones (-> that path is undecided)
+                imp = X.module_imports(relpath).get(name)
+                if imp and imp[0].split('.')[0] in _SAFE_STDLIB:
+                    import importlib
+                    try:
+                        mod = importlib.import_module(imp[0])
+                        return getattr(mod, imp[1]) if imp[1] else mod
+                    except Exception:
+                        return NotImplemented
                 return NotImplemented
             if not isinstance(sub.ex.node, ast.FunctionDef) or sub.ex.cls is not None:
                 return NotImplemented
@@ -65,7 +88,44 @@ class Harness:
                 harness.notes.append(note)
             return Closure(interp, sub.ex.node, root, name)
         env.vars['__fallback__'] = fallback
-        return Closure(interp, fuc.ex.node, env, fuc.ex.qualpath.split('.')[-1])
+        clo = Closure(interp, fuc.ex.node, env, fuc.ex.qualpath.split('.')[-1])
+        if fuc.ex.cls is None:
+            return clo
+        cls = getattr(fuc.ex.cls, 'name', fuc.ex.cls)
+
+        def resolver(interp_, me, name):
+            # a helper *method* of the class (or of a base class in the same file) that the tree the contracts were written
+            # against does not have: it has no contract, so it is inlined with `self` bound (reported in the evidence)
+            todo, seen = [cls], set()
+            while todo:
+                c = todo.pop(0)
+                if c in seen:
+                    continue
+                seen.add(c)
+                if name in _BASELINE.get(relpath, {}).get(c, ()):
+                    return None
+                meths, bases = X.class_info(relpath, c)
+                if name in meths:
+                    try:
+                        sub = harness.fn(relpath, f'{c}.{name}')
+                    except Exception:
+                        return None
+                    if not isinstance(sub.ex.node, ast.FunctionDef) or sub.ex.decorators:
+                        return None
+                    note = f'inlined helper method {relpath}:{c}.{name} (not in the baseline, no contract of its own)'
+                    if note not in harness.notes:
+                        harness.notes.append(note)
+                    inner = Closure(interp_, sub.ex.node, env, name)
+                    return lambda *a, **k: inner(me, *a, **k)
+                todo.extend(bases)
+            return None
+
+        def call(*a, **k):
+            from .rec import Rec
+            if a and isinstance(a[0], Rec) and getattr(a[0], 'method_resolver', None) is None:
+                a[0].method_resolver = resolver
+            return clo(*a, **k)
+        return call
 
     # ------------------------------------------------------------------ running
     def run_paths(self, fuc, label, body, max_paths=20000):
